@@ -47,7 +47,24 @@ def rule_R2(ctx, prj):
         for l in pr.instances.get("R1", []):
             ctx.instances.setdefault("R2", []).append(l)
         pr.instances = {}
-    # file loc = sum of its measurements' values, at every construction site on the scan path
+    # file loc = sum of its measurements' values: evaluated on the entries the interpreted scan_path produces (as C05-R1);
+    # the syntactic reading of the construction site is the fallback
+    from ..absint import PyRaise as _PR, Unknown as _UK
+    try:
+        from .. import walk_eval as W
+        es = W.scanned_entries(prj)
+        sp = prj.func("codelimit.common.Scanner:scan_path")
+        if not es:
+            raise _UK("no entry produced")
+        badl = [e for e in es if e[3] != sum(e[4])]
+        if badl:
+            k, _, _, loc, vals, _ = badl[0]
+            ctx.viol("R2", "_analyze_file/loc", sp.site(), f"the entry of {k} produced by the scan has line total {loc} for measurements of lengths {vals} (sum {sum(vals)})")
+        else:
+            ctx.ok("R2", sp.site(), f"scan path: {len(es)} entries, each with loc = sum of the lengths of its measurements (evaluated)")
+        return
+    except (_UK, _PR) as e:
+        ctx.info(f"R2: scan path not evaluable ({e}); the construction site is read syntactically")
     from .c05 import _is_sum_of_values
     af = prj.func("codelimit.common.Scanner:_analyze_file")
     n = 0
